@@ -54,9 +54,10 @@ theorem fanout_enqueue (s : S) (sig : Nat) (k : Key) :
   · intro h hh; simp [enqueue, upd_other _ _ _ _ hh]
 
 /-- `fanout` (3): a delivery is exactly the fold of those visits (and nothing at all when the
-disposition is not libuv's). -/
+disposition is not libuv's); a visit that finds the pipe full (`enqueueCap`) does nothing, and inside the
+property's envelope that never happens (`foldl_enqueueCap_eq`, used by `fanout`). -/
 theorem fanout_deliver {s : S} (sig : Nat) (r : Bool) (hd : s.disp sig = .uv r) :
-    ∃ s0 : S, deliver s sig = (handlerTargets s.tree sig).foldl (enqueue sig) s0 ∧
+    ∃ s0 : S, deliver s sig = (handlerTargets s.tree sig).foldl (enqueueCap sig) s0 ∧
       s0.tree = s.tree ∧ s0.hs = s.hs ∧ s0.pipes = s.pipes := by
   unfold deliver; rw [hd]
   cases r <;> (simp only [Bool.false_eq_true, ↓reduceIte]; exact ⟨_, rfl, rfl, rfl, rfl⟩)
@@ -420,14 +421,19 @@ theorem targets_count {s : S} (hr : Reach s) (sig h : Nat) :
 /-- **`fanout`, end to end.**  In every reachable state, a delivery of `sig` while libuv's handler is
 installed (a) bumps `caught` of every handle watching `sig` by exactly 1 and of no other handle,
 (b) adds exactly one message for each such handle to the pipe of that handle's own loop — and no
-message for anybody else, on any loop —, (c) all added messages carry `sig`. -/
-theorem fanout {s : S} (hr : Reach s) (sig : Nat) (r : Bool) (hd : s.disp sig = .uv r) :
+message for anybody else, on any loop —, (c) all added messages carry `sig`.  `hroom` is the envelope of
+the property text: every self-pipe has room for the messages of this delivery (however many are pending:
+up to `pipeCap` = 4096 per loop).  Outside the envelope messages are dropped uncounted, and both
+invariants — hence `closed_no_message`, `disposition`, … — still hold (`reach_inv`, `reach_aux`). -/
+theorem fanout {s : S} (hr : Reach s) (sig : Nat) (r : Bool) (hd : s.disp sig = .uv r)
+    (hroom : ∀ L, (s.pipes L).length + (handlerTargets s.tree sig).length ≤ pipeCap) :
     (∀ h, ((deliver s sig).hs h).caught =
         (s.hs h).caught + (if (s.hs h).signum = sig ∧ sig ≠ 0 then 1 else 0)) ∧
     (∀ L h, cntFor (deliver s sig) L h =
         cntFor s L h + (if ((s.hs h).signum = sig ∧ sig ≠ 0) ∧ (s.hs h).loop = L then 1 else 0)) ∧
     (∀ L, ∃ added, (deliver s sig).pipes L = s.pipes L ++ added ∧ ∀ m ∈ added, m.sig = sig) := by
   obtain ⟨s0, he, ht, hh, hp⟩ := fanout_deliver sig r hd
+  rw [foldl_enqueueCap_eq sig _ s0 (by rw [hp]; exact hroom)] at he
   refine ⟨?_, ?_, ?_⟩
   · intro h; rw [he, foldl_enqueue_caught, hh, targets_count hr]
   · intro L h
